@@ -775,7 +775,10 @@ class LoopMixin:
                 return self._for_generator(synth, lazy[2])
         # exact iteration over small concrete collections
         items = None
-        if isinstance(itv, (ListV, TupleV)) and itv.items is not None and len(itv.items) <= 4:
+        if isinstance(itv, DictV) and getattr(itv, 'exact_ok', False) and not itv.open and not itv.sym_stores and itv.default is None:
+            itv = ListV(items=[self.from_py(k) for k in itv.items])      # iterating a fully known dictionary: its keys
+            itv.exact_ok = True
+        if isinstance(itv, (ListV, TupleV)) and itv.items is not None and (len(itv.items) <= 4 or getattr(itv, 'exact_ok', False)):
             items = list(itv.items)
         if isinstance(itv, RangeV):
             lo, hi = self.store.canon(Lin.of(itv.lo)), self.store.canon(Lin.of(itv.hi))
